@@ -29,6 +29,7 @@ type vSpy struct {
 	flushes      int
 	bodyBeforeHd bool // a Write/Flush arrived while headers == 0
 	shortWrites  bool // Write may accept fewer bytes than offered (with an error)
+	body         []byte // the bytes accepted, in order
 }
 
 func (s *vSpy) Header() http.Header {
@@ -55,6 +56,7 @@ func (s *vSpy) Write(b []byte) (int, error) {
 		n = vx.Int(0, len(b))
 	}
 	s.bytes += n
+	s.body = append(s.body, b[:n]...)
 	if n < len(b) {
 		return n, vErrShort
 	}
